@@ -256,12 +256,9 @@ func TestVerifC44(t *testing.T) {
 	}
 	// big-memory cases: thorough only, and one regression witness in quick (see known finding)
 	nBig := 0
-	if env.Thorough() {
-		for _, c := range []string{"hdr-merge", "hdr-full"} { // (the 64 MiB / compressed variant is covered by the packer-manager unit case)
-			sessions = append(sessions, c44Sess{Class: c})
-			nBig++
-		}
-	}
+	// (End-to-end sessions with 458 000 / 1 000 000 tiny blobs — classes hdr-merge / hdr-full below —
+	// exist but are not scheduled: one such session costs more than 15 CPU-minutes on the shared
+	// machine. The header limit is witnessed at packer-manager level by c44HeaderLimitUnit.)
 	// cheap regression witness for the header limit at packer-manager level (both tiers)
 	if env.Shard == 0 && !light {
 		c44HeaderLimitUnit(t, rec)
